@@ -93,26 +93,26 @@ Proof.
 Qed.
 
 (* the Python-side default of a generated field *)
-Lemma gen_field_default s cs snake f :
-  rhs_default (p_value (gen_field s cs snake f)) =
-  rhs_default (field_default_value (i_default f) (is_nonnull (i_type f))
+Lemma gen_field_default s cs snake fs f :
+  rhs_default (p_value (gen_field s cs snake fs f)) =
+  rhs_default (field_default_value (emitted_default s f) (is_nonnull (i_type f))
                  (is_opt (fst (parse_input_field_type s cs (i_type f) true)))
                  (snd (parse_input_field_type s cs (i_type f) true))).
 Proof.
   unfold gen_field. destruct (parse_input_field_type s cs (i_type f) true) as [a ft]. simpl.
-  destruct (py_name snake (i_name f) =? i_name f); [reflexivity|].
+  destruct (fname snake fs (i_name f) =? i_name f); [reflexivity|].
   apply process_field_value_default. apply field_default_value_shape.
 Qed.
 
 (* required_iff: no Python default iff the type is non-null and the schema gives no default *)
-Lemma required_iff s cs snake f :
-  rhs_default (p_value (gen_field s cs snake f)) = DRequired <->
+Lemma required_iff s cs snake fs f :
+  rhs_default (p_value (gen_field s cs snake fs f)) = DRequired <->
   (is_nonnull (i_type f) = true /\ i_default f = None).
 Proof.
-  rewrite gen_field_default. unfold field_default_value.
-  destruct (i_default f) as [d|].
+  rewrite gen_field_default. unfold field_default_value, emitted_default.
+  destruct (i_default f) as [d|]; simpl option_map.
   - split.
-    + intros H. exfalso. exact (rhs_default_of_shape _ (const_value_node_shape _ d) H).
+    + intros H. exfalso. exact (rhs_default_of_shape _ (const_value_node_shape _ _) H).
     + intros [_ H]. discriminate.
   - destruct (is_nonnull (i_type f)) eqn:N; simpl.
     + destruct (i_type f) as [| |t]; simpl in N; try discriminate. simpl.
@@ -120,32 +120,32 @@ Proof.
     + split; [discriminate | intros [H _]; discriminate].
 Qed.
 
-Lemma gen_field_alias s cs snake f :
-  rhs_alias (p_value (gen_field s cs snake f)) =
-  if py_name snake (i_name f) =? i_name f then None else Some (i_name f).
+Lemma gen_field_alias s cs snake fs f :
+  rhs_alias (p_value (gen_field s cs snake fs f)) =
+  if fname snake fs (i_name f) =? i_name f then None else Some (i_name f).
 Proof.
   unfold gen_field. destruct (parse_input_field_type s cs (i_type f) true) as [a ft]. simpl.
-  destruct (py_name snake (i_name f) =? i_name f).
-  - pose proof (field_default_value_shape (i_default f) (is_nonnull (i_type f)) (is_opt a) ft) as H.
-    destruct (field_default_value (i_default f) (is_nonnull (i_type f)) (is_opt a) ft) as [e|]; [|reflexivity].
+  destruct (fname snake fs (i_name f) =? i_name f).
+  - pose proof (field_default_value_shape (emitted_default s f) (is_nonnull (i_type f)) (is_opt a) ft) as H.
+    destruct (field_default_value (emitted_default s f) (is_nonnull (i_type f)) (is_opt a) ft) as [e|]; [|reflexivity].
     destruct H as [[b ->] | H]; [reflexivity | apply rhs_alias_plain; exact H].
   - apply process_field_value_alias.
 Qed.
 
-Lemma gen_field_name s cs snake f : p_name (gen_field s cs snake f) = py_name snake (i_name f).
+Lemma gen_field_name s cs snake fs f : p_name (gen_field s cs snake fs f) = fname snake fs (i_name f).
 Proof. unfold gen_field. destruct (parse_input_field_type s cs (i_type f) true). reflexivity. Qed.
 
-Lemma gen_field_ann s cs snake f :
-  p_ann (gen_field s cs snake f) = fst (parse_input_field_type s cs (i_type f) true).
+Lemma gen_field_ann s cs snake fs f :
+  p_ann (gen_field s cs snake fs f) = fst (parse_input_field_type s cs (i_type f) true).
 Proof. unfold gen_field. destruct (parse_input_field_type s cs (i_type f) true). reflexivity. Qed.
 
 (* the GraphQL name stays the wire name (C18 wire_name_kept, on the input side) *)
-Lemma gen_field_wire s cs snake f :
-  match rhs_alias (p_value (gen_field s cs snake f)) with
-  | Some a => a | None => p_name (gen_field s cs snake f) end = i_name f.
+Lemma gen_field_wire s cs snake fs f :
+  match rhs_alias (p_value (gen_field s cs snake fs f)) with
+  | Some a => a | None => p_name (gen_field s cs snake fs f) end = i_name f.
 Proof.
   rewrite gen_field_alias, gen_field_name.
-  destruct (py_name snake (i_name f) =? i_name f) eqn:E; [|reflexivity].
+  destruct (fname snake fs (i_name f) =? i_name f) eqn:E; [|reflexivity].
   apply String.eqb_eq in E. exact E.
 Qed.
 
